@@ -562,6 +562,10 @@ func mkIn(path string, world int, sp spelling) NumIn {
 	return in
 }
 
+const edgeWorld = 99
+
+var edge *world
+
 func outcomeTag(path string, outcome int) string {
 	return fmt.Sprintf("%s-outcome=%s", path, []string{"refused", "deferred", "queued-at-once"}[outcome])
 }
@@ -572,7 +576,16 @@ func runOne(o *lib.Out, r *lib.Rand, ws []*world, name string, in NumIn) {
 	if class == "" {
 		class = "replay"
 	}
-	w := ws[in.World%len(ws)]
+	var w *world
+	if in.World == edgeWorld {
+		// only reachable from a replay file: max-req-timeout = MaxInt64 ns exactly (C04_dpub_edge)
+		if edge == nil {
+			edge = newWorld(edgeWorld, time.Duration(math.MaxInt64), 2500, 15*time.Minute, 60*time.Second)
+		}
+		w = edge
+	} else {
+		w = ws[in.World%len(ws)]
+	}
 	switch in.Path {
 	case "b10":
 		v, err := verifshim.ByteToBase10(sp)
@@ -672,6 +685,9 @@ func main() {
 	defer func() {
 		for _, w := range ws {
 			w.close()
+		}
+		if edge != nil {
+			edge.close()
 		}
 	}()
 
